@@ -77,6 +77,43 @@ def builder(seed, chains=3, init=None, multiple=False, jitter=None, kernels="rw"
     return b
 
 
+class DerivedKeyInterface(gs.DictInterface):
+    """a model interface whose extract_position computes a derived quantity that reduces over the value's leading axis (softmax weights): it is only
+    meaningful on a SINGLE chain's state - which is all the ModelInterface protocol promises to handle"""
+
+    def extract_position(self, position_keys, model_state):
+        out = {}
+        for k in position_keys:
+            if k == "w":
+                z = model_state["x"]
+                out[k] = jnp.exp(z) / jnp.sum(jnp.exp(z))
+            else:
+                out[k] = model_state[k]
+        return out
+
+
+def derived_key_case(col, s):
+    """every recorded sample of a tracked derived key - the FIRST one (initial values) included - is the model's extract_position applied to that chain's own state"""
+    init = {"x": jnp.array([[0.5, -0.5], [3.0, 0.0], [-2.0, 1.0]]), "y": jnp.array([2.0, 1.0, 0.0])}
+    b = gs.EngineBuilder(seed=s, num_chains=3)
+    b.set_epochs(mk_epochs())
+    b.set_model(DerivedKeyInterface(lambda st: -0.5 * jnp.sum(st["x"] ** 2) - 0.5 * jnp.sum((st["y"] - 1.0) ** 2)))
+    b.set_initial_values(init, multiple_chains=True)
+    b.add_kernel(gs.RWKernel(["x"], initial_step_size=0.8))
+    b.add_kernel(gs.RWKernel(["y"], initial_step_size=0.8))
+    b.positions_included = ["w"]
+    b.show_progress = False
+    e = b.build()
+    e.sample_all_epochs()
+    sm = {k: np.asarray(v) for k, v in e.get_results().get_samples().items()}
+    x, w = sm["x"], sm["w"]
+    want = np.exp(x) / np.sum(np.exp(x), axis=-1, keepdims=True)
+    ok = w.shape == x.shape and np.allclose(w, want, rtol=1e-5, atol=1e-6) and np.allclose(x[:, 0], np.asarray(init["x"]))
+    first_bad = None if ok else [int(i) for i in np.argwhere(~np.isclose(w, want, rtol=1e-5, atol=1e-6))[0]] if w.shape == x.shape else "shape"
+    col.add(None if ok else {"sig": "native::initial::derived_key_per_chain", "what": f"tracked derived key w = softmax(x): recorded value differs from extract_position on the chain's own state at (chain, sample, entry) = {first_bad}; "
+                             f"first recorded w of chain 0 = {w[0, 0].tolist() if w.ndim == 3 else w.shape}, expected {want[0, 0].tolist()}", "input": {"seed": s, "tracked": ["w"], "chains": 3}})
+
+
 def run(b):
     e = b.build()
     e.sample_all_epochs()
@@ -121,6 +158,11 @@ def bounded(tier, seed):
     same12 = all(np.array_equal(rc[k][1:], rd[k][1:]) for k in rc)
     col.add(None if same12 else {"sig": "native::repro::chain_independence_kernel_init", "what": "chains 1 and 2 (NUTS / HMC kernels with default step size) changed when only the initial value of chain 0 was changed",
                                  "input": {"seed": s, "kernels": ["NUTSKernel(['x'])", "HMCKernel(['y'])"]}})
+    # 4c. a tracked key that the model DERIVES inside extract_position (per chain)
+    try:
+        derived_key_case(col, s)
+    except Exception as e_:
+        col.add({"sig": f"native::initial::exception::{type(e_).__name__}", "what": str(e_)[:200], "input": {"scenario": "derived tracked key"}})
     # 5. first recorded sample = initial value after jitter; replicated and per-chain; repeated build
     jit = {"x": lambda key, v: v + 0.25, "y": lambda key, v: v + jax.random.uniform(key, v.shape)}
     for multiple, init in ((False, None), (True, base)):
@@ -140,6 +182,23 @@ def bounded(tier, seed):
         else:
             col.add(None if all(np.array_equal(firsts[0][k], firsts[1][k]) for k in firsts[0]) else
                     {"sig": "native::initial::rebuild", "what": "a second build() of the same builder starts from different values", "input": {"multiple_chains": multiple}})
+    # 5b. jitter switched off again (None / empty mapping) or replaced on the same builder: "the configured jitter" is the last configuration
+    for off in (None, {}):
+        b = builder(s, jitter=jit)
+        b.set_jitter_fns(off)
+        e = b.build()
+        e.sample_next_epoch()
+        first = {k: np.asarray(v)[:, 0] for k, v in e.get_results().get_samples().items()}
+        ok = np.allclose(first["x"], np.tile(np.array([0.5, -0.5]), (3, 1))) and np.allclose(first["y"], 2.0)
+        col.add(None if ok else {"sig": "native::initial::jitter_switched_off", "what": f"set_jitter_fns(fns) then set_jitter_fns({off!r}): first recorded sample x={first['x'].tolist()}, y={first['y'].tolist()} "
+                                 "is not the supplied initial value (0.5, -0.5), 2.0", "input": {"second_call": repr(off)}})
+    b = builder(s, jitter=jit)
+    b.set_jitter_fns({"x": lambda key, v: v - 1.0})
+    e = b.build()
+    e.sample_next_epoch()
+    first = {k: np.asarray(v)[:, 0] for k, v in e.get_results().get_samples().items()}
+    ok = np.allclose(first["x"], np.tile(np.array([-0.5, -1.5]), (3, 1))) and np.allclose(first["y"], 2.0)
+    col.add(None if ok else {"sig": "native::initial::jitter_replaced", "what": "jitter functions replaced by x -> x - 1: first recorded sample x=" + str(first["x"].tolist()) + ", y=" + str(first["y"].tolist()), "input": {}})
     # 6. re-execution in fresh interpreter processes (string hashing is randomised per process)
     import os, subprocess, sys
     digests = []
@@ -156,8 +215,8 @@ def bounded(tier, seed):
     return {
         "evaluations": col.evals, "distinct_nontrivial": col.evals,
         "rule": ("BOUNDED: real EngineBuilder/Engine, 3 chains, two RW kernels on a Gaussian dict model, schedule INIT/FAST(4)/BURNIN(2)/POST(6, thinning 2): rerun equality, int seed vs "
-                 "PRNGKey, uniqueness of the keys received by every kernel call - transition, start_epoch, end_epoch, tune, end_warmup - (key-logging kernel), chain 0 unchanged when other chains' initial values change and chains 1,2 unchanged when chain 0's does (NUTS/HMC with step-size search at initialisation), first "
-                 f"recorded sample = initial value + jitter for replicated and per-chain states over two consecutive build() calls. base seed {s}. Determinism of XLA is an assumption."),
+                 "PRNGKey, uniqueness of the keys received by every kernel call - transition, start_epoch, end_epoch, tune, end_warmup - (key-logging kernel), chain 0 unchanged when other chains' initial values change and chains 1,2 unchanged when chain 0's does (NUTS/HMC with step-size search at initialisation), a tracked key derived inside extract_position (softmax over the value) recorded per chain from the first sample on, first "
+                 f"recorded sample = initial value + jitter for replicated and per-chain states over two consecutive build() calls; jitter functions switched off (None or an empty mapping) or replaced on the same builder. base seed {s}. Determinism of XLA is an assumption."),
         "samples": [{"seed": s, "schedule": SCHED}],
         "exhaustive": False, "violations": col.violations,
     }
